@@ -60,6 +60,8 @@ class Check:
         self.known_hits: list[dict] = []
         self.inconclusive: list[str] = []
         self.extra: dict = {}
+        self._pending: list = []      # violations found in a worker process, reported by the parent
+        self.is_worker = False
         kf = json.load(open(os.path.join(ROOT, "known_findings.json")))
         self._known = [f for f in kf.get("findings", []) if f.get("property") == pid]
 
@@ -101,6 +103,9 @@ class Check:
     def violation(self, signature: str, what: str, replay: dict):
         """Report a *reproduced* counterexample. `signature` names the failing call site / input
         class; a known finding suppresses exactly its own signature."""
+        if self.is_worker:
+            self._pending.append((signature, what, _jsonable(replay)))
+            return
         for k in self._known:
             if k.get("signature") == signature:
                 if not any(h["signature"] == signature for h in self.known_hits):
@@ -117,6 +122,42 @@ class Check:
         self.violations.append({"signature": signature, "what": what, "replay": path})
         print(f"VIOLATION property={self.pid} replay={path}", flush=True)
         print(f"  {signature}: {what}", flush=True)
+
+    # ---- sharding over processes -------------------------------------------------------------
+    def export(self) -> dict:
+        return dict(obligations=self.obligations, discharged=self.discharged, queries=self.queries, paths=self.paths,
+                    solver_s=self.solver_s, cases=list(self.cases), evaluations=self.evaluations, samples=self.samples,
+                    vacuity=self.vacuity, validation=self.validation, inconclusive=self.inconclusive,
+                    pending=self._pending, functions=self.functions, assumptions=self.assumptions,
+                    not_decided=self.not_decided, extra=_jsonable(self.extra))
+
+    def merge(self, d: dict):
+        self.obligations += d["obligations"]
+        self.discharged += d["discharged"]
+        self.queries += d["queries"]
+        self.paths += d["paths"]
+        self.solver_s += d["solver_s"]
+        self.cases.update(d["cases"])
+        self.evaluations += d["evaluations"]
+        for smp in d["samples"]:
+            self.sample(smp)
+        for v in d["vacuity"]:
+            if v not in self.vacuity:
+                self.vacuity.append(v)
+        for v in d["validation"]:
+            if v not in self.validation:
+                self.validation.append(v)
+        for w in d["inconclusive"]:
+            self.inconclusive.append(w)
+        self.fn(*d["functions"])
+        self.assume(*d["assumptions"])
+        for nd in d["not_decided"]:
+            if nd not in self.not_decided:
+                self.not_decided.append(nd)
+        for k, v in d["extra"].items():
+            self.extra.setdefault(k, v)
+        for sig, what, replay in d["pending"]:
+            self.violation(sig, what, replay)
 
     # ---- finish --------------------------------------------------------------------------------
     def finish(self) -> int:
@@ -176,14 +217,74 @@ class Check:
         return EXIT_OK
 
 
+BUDGET_S = {"quick": 900, "thorough": 7200}
+
+
+def set_deadline(tier):
+    from engine import zsym
+
+    budget = float(os.environ.get("VERIF_BUDGET_S", BUDGET_S[tier]))
+    zsym.DEADLINE = time.time() + budget
+    return zsym.DEADLINE
+
+
 def run_check(pid: str, tier: str, level: str, technique: str, body) -> int:
     """Run `body(check)`; map exceptions to the verdict protocol."""
+    from engine import zsym
+
     chk = Check(pid, tier, level, technique)
+    set_deadline(tier)
     try:
         body(chk)
-    except Inconclusive as e:
+    except (Inconclusive, zsym.TimeBudget) as e:
         chk.note_inconclusive(str(e))
     except Exception as e:  # harness error: never a verdict
         traceback.print_exc()
         chk.note_inconclusive(f"harness error: {type(e).__name__}: {e}")
     return chk.finish()
+
+
+def _worker(args):
+    pid, tier, level, technique, modname, funcname, item = args
+    import importlib
+
+    chk = Check(pid, tier, level, technique)
+    chk.is_worker = True
+    from engine import zsym
+
+    try:
+        getattr(importlib.import_module(modname), funcname)(chk, tier, item)
+    except (Inconclusive, zsym.TimeBudget) as e:
+        chk.inconclusive.append(f"shard {item!r}: {e}")
+    except Exception as e:
+        traceback.print_exc()
+        chk.inconclusive.append(f"harness error in shard {item!r}: {type(e).__name__}: {e}")
+    return chk.export()
+
+
+def parallel(chk: Check, modname: str, funcname: str, items, nproc=None):
+    """Run `modname.funcname(chk, tier, item)` for every item in worker processes and merge."""
+    import multiprocessing as mp
+
+    nproc = nproc or int(os.environ.get("VERIF_JOBS", "0") or 0) or min(16, os.cpu_count() or 4)
+    items = list(items)
+    if not items:
+        return
+    args = [(chk.pid, chk.tier, chk.level, chk.technique, modname, funcname, it) for it in items]
+    from engine import zsym
+
+    with mp.get_context("fork").Pool(min(nproc, len(items))) as pool:
+        it = pool.imap_unordered(_worker, args, chunksize=1)
+        done = 0
+        while done < len(items):
+            left = (zsym.DEADLINE - time.time() + 30) if zsym.DEADLINE else None
+            try:
+                d = it.next(timeout=left)
+            except StopIteration:
+                break
+            except mp.TimeoutError:
+                pool.terminate()
+                chk.note_inconclusive(f"wall-clock budget exhausted with {len(items) - done} shard(s) unfinished")
+                break
+            chk.merge(d)
+            done += 1
